@@ -84,8 +84,8 @@ pub proof fn lemma_le_scan(a: CView, b: CView, items: Seq<(&il::Scalar, &Constan
 }
 
 pub proof fn lemma_le_fail(a: CView, b: CView, s: il::Scalar)
-    requires a.contains_key(s), !(b.contains_key(s) && cle(a[s], b[s])),
-    ensures !all_le(a, b),
+    requires a.contains_key(s),
+    ensures !(b.contains_key(s) && cle(a[s], b[s])) ==> !all_le(a, b),
 {
 }
 
@@ -159,17 +159,19 @@ pub proof fn lemma_eq_scan_done(a: CView, b: CView, items: Seq<(&il::Scalar, &Co
 pub proof fn lemma_eq_scan_none(a: CView, b: CView, items: Seq<(&il::Scalar, &Constant)>, n: int, order: Ordering)
     requires
         graph::seq_lists_map(items, a), a.len() == b.len(), 0 <= n < items.len(), eq_scan(b, items, n, order),
+    ensures
         ({ let k = *items[n].0; let v = *items[n].1;
            ||| !b.contains_key(k)
            ||| ccmp(v, b[k]) is None
            ||| ccmp(v, b[k]) == Some(Ordering::Less) && order == Ordering::Greater
-           ||| ccmp(v, b[k]) == Some(Ordering::Greater) && order == Ordering::Less }),
-    ensures cmp_view(a, b) is None,
+           ||| ccmp(v, b[k]) == Some(Ordering::Greater) && order == Ordering::Less }) ==> cmp_view(a, b) is None,
 {
     lemma_items(items, a);
     let k = *items[n].0; let v = *items[n].1;
     assert(a.contains_key(k) && a[k] == v);
-    if !b.contains_key(k) {
+    if !(!b.contains_key(k) || ccmp(v, b[k]) is None || (ccmp(v, b[k]) == Some(Ordering::Less) && order == Ordering::Greater)
+        || (ccmp(v, b[k]) == Some(Ordering::Greater) && order == Ordering::Less)) {
+    } else if !b.contains_key(k) {
         assert(!dom_sub(a, b));
     } else if ccmp(v, b[k]) is None {
         assert(rel_at(a, b, k, None));
@@ -202,9 +204,7 @@ impl PartialOrd for Constants {
         le_scan(other@, it.seq(), it.index@),
         it.index@ == it.seq().len() ==> all_le(self@, other@),
 //@ before 0 `if !other.constants.get(ls)`
-    proof { lemma_items(it.seq(), self@); }
-//@ before 0 `return None;`
-    proof { lemma_le_fail(self@, other@, *ls); }
+    proof { lemma_items(it.seq(), self@); lemma_le_fail(self@, other@, *ls); }
 //@ after 0 `return None; }`
     proof { lemma_le_scan(self@, other@, it.seq(), it.index@ + 1); }
 //@ loop 1
@@ -214,9 +214,7 @@ impl PartialOrd for Constants {
         le_scan(self@, it.seq(), it.index@),
         it.index@ == it.seq().len() ==> all_le(other@, self@),
 //@ before 0 `if !self.constants.get(ls)`
-    proof { lemma_items(it.seq(), other@); }
-//@ before 1 `return None;`
-    proof { lemma_le_fail(other@, self@, *ls); }
+    proof { lemma_items(it.seq(), other@); lemma_le_fail(other@, self@, *ls); }
 //@ after 1 `return None; }`
     proof { lemma_le_scan(other@, self@, it.seq(), it.index@ + 1); }
 //@ loop 2
@@ -228,13 +226,6 @@ impl PartialOrd for Constants {
 //@ before 0 `match other.constants.get(ls) {`
     broadcast use {ordering_cmp::axiom_ordering_obeys_partial_cmp, ordering_cmp::axiom_ordering_partial_cmp};
     let ghost order0 = order;
-//@ before 2 `return None;`
-    proof { lemma_eq_scan_none(self@, other@, it.seq(), it.index@, order0); }
-//@ before 3 `return None;`
-    proof { lemma_eq_scan_none(self@, other@, it.seq(), it.index@, order0); }
-//@ before 4 `return None;`
-    proof { lemma_eq_scan_none(self@, other@, it.seq(), it.index@, order0); }
-//@ before 5 `return None;`
     proof { lemma_eq_scan_none(self@, other@, it.seq(), it.index@, order0); }
 //@ after 0 `None => { return None; } }`
     proof {
